@@ -119,6 +119,10 @@ M_C20(cfg, meta, pre, r, post, g) ==
         IF ShouldStore(meta, r)
         THEN Stored(r, post) \/ MayVanish(cfg, pre, EngEvent(meta, r))
         ELSE post = pre
+  \* ... and does not corrupt the cache: every stored key is still known to the queue (it can still be
+  \* evicted), if that was so before
+  /\ (r.ev = "fin" /\ "task" \in DOMAIN r /\ r.task # "" /\ ~r.panic /\ Dom(pre) \subseteq SeqRange(pre.order)) =>
+        Dom(post) \subseteq SeqRange(post.order)
   \* up to its first await the call has only performed its lookup: nothing is stored, nothing but an
   \* expired entry for its own key is removed (so a later drop leaves no trace of the call)
   /\ (r.ev = "get" /\ "task" \in DOMAIN r /\ r.task # "" /\ ~r.panic) =>
